@@ -948,6 +948,69 @@ def shifted_copy(repo, cls, fn, loop, report_ok, report_bad):
                     sp.expand(hi_at_copy - sh_at_copy)))
 
 
+def cursor_on_element_result(repo, cls, fn, loop, zeros, report_ok,
+                             report_bad):
+    """A running position addresses the *accumulated* vector.  The result
+    that one loop element returns (`l, s = elem.method(..)`) is laid out
+    from that element's own origin: reading it at the running position
+    (`s[n + start:]`) is right for the first element only."""
+    elems = _loop_elem_names(loop)
+    running = {v for v in zeros if zeros[v] < loop.lineno
+               and _assignments(loop, v)}
+    if not running or not elems:
+        return
+    # names bound in this loop to the result of a call on the loop element
+    fresh = {}
+    for a in ast.walk(loop):
+        if not (isinstance(a, ast.Assign) and isinstance(a.value, ast.Call)
+                and isinstance(a.value.func, ast.Attribute)):
+            continue
+        if _innermost_loop(a, fn) is not loop:
+            continue
+        recv = a.value.func.value
+        if not (_names(recv) & elems):
+            continue
+        # the element must not have been handed the running position
+        if any(_names(x) & running for x in list(a.value.args) + [
+                k.value for k in a.value.keywords]
+                if not isinstance(x, ast.Subscript)):
+            continue
+        for t in a.targets:
+            for x in ast.walk(t):
+                if isinstance(x, ast.Name) and isinstance(x.ctx, ast.Store):
+                    fresh[x.id] = a
+    if not fresh:
+        return
+    construct = '%s.%s' % (cls, fn.name) if cls else fn.name
+    for n in ast.walk(loop):
+        if not (isinstance(n, ast.Subscript) and isinstance(n.ctx, ast.Load)
+                and isinstance(n.value, ast.Name) and n.value.id in fresh):
+            continue
+        if _innermost_loop(n, fn) is not loop:
+            continue
+        used = _names(n.slice) & running
+        # bounds bound in this iteration from a running variable
+        for nm in _names(n.slice) - running:
+            for d in _defs_in(loop, nm):
+                if _names(d.value) & running:
+                    used.add(nm)
+        where = repo.loc(n, cls, fn.name)
+        if used:
+            report_bad(
+                where, construct,
+                'running position on element result %s' % n.value.id,
+                '`%s` reads the result of one loop element (`%s`) at the '
+                'running position `%s`, which counts the entries of all '
+                'previous elements: the element\'s own result starts at its '
+                'own origin, so this is right for the first element only' % (
+                    U(n)[:50], norm_stmt(fresh[n.value.id])[:50],
+                    sorted(used)[0]))
+        else:
+            report_ok(where, construct,
+                      'element result `%s` is read from its own origin'
+                      % U(n)[:50])
+
+
 def scoped(name, classes=None, files=None, floor=1):
     """R05.4 restricted to some classes / files (same rule, own floor)."""
     def rule(ctx, repo):
@@ -987,6 +1050,8 @@ def r05_4(ctx, repo, classes=None, files=None, floor=24):
                 boundary_slices(repo, cls, fn, loop, tables, ok, bad)
                 partition_blocks(repo, cls, fn, loop, parts, ok, bad)
                 shifted_copy(repo, cls, fn, loop, ok, bad)
+                cursor_on_element_result(repo, cls, fn, loop, zeros, ok,
+                                         bad)
                 if len(ctx.obligations) > before:
                     n_loops += 1
     if n_loops < floor:
